@@ -73,6 +73,7 @@ class Ledger(Base):
         self.manual: Set[str] = set()       # instance ids touched by commands
         self.commands = 0
         self.submits: Dict[str, List[str]] = defaultdict(list)  # id -> [NN]
+        self.late_polled: List[list] = []
 
     def on_event(self, ev):
         k = ev['k']
@@ -82,6 +83,17 @@ class Ledger(Base):
             for j in ev['jobs']:
                 p, n, num = j.split('/')
                 self.submits[f'{p}/{n}'].append(num)
+        elif k == 'MSG_OUT' and ev.get('transient') and \
+                ev.get('flag') == '(polled)':
+            new = set(ev['outputs_after']) - set(ev['outputs_before'])
+            if new:
+                # an output learnt from a poll for a task that has already
+                # left the pool: its children are not spawned
+                self.late_polled.append([ev['id'], sorted(new)])
+
+    def summary(self, drv):
+        return {'late_polled_outputs_on_removed_tasks': self.late_polled,
+                'n_late_polled': len(self.late_polled)}
 
     def actual_facts(self) -> Set[Tuple[str, int, str]]:
         """Outputs actually completed by jobs so far (the world's truth),
